@@ -12,6 +12,11 @@ echo "| change | property | expected | check exit | caught | first violation sig
 echo "|---|---|---|---|---|---|"
 for d in /verif/seeded/*/; do
   [ -f "$d/patch.diff" ] || continue
+  obs=$(python3 -c "import json;m=json.load(open('$d/meta.json'));print('yes' if m.get('obsolete') else '')")
+  if [ -n "$obs" ]; then
+    echo "| seeded/$(basename $d) | $(python3 -c "import json;print(json.load(open('$d/meta.json'))['property'])") | obsolete | - | - | neutralised by a later genuine-defect fix, see meta.json |"
+    continue
+  fi
   props=$(python3 -c "import json;m=json.load(open('$d/meta.json'));print(' '.join(m.get('check_with',[m['property']])))")
   for pp in $props; do
   r=$(/verif/scripts/run_seeded.sh "$d" "$pp" "$secs" | head -1)
